@@ -108,7 +108,14 @@ func c14Life(c *mon.Ctx, r *mon.Rand) {
 					case 5:
 						sharedDBucket.ReportSamples(int64(p*100000 + i))
 					case 6:
-						rep.AllocateCounter(fmt.Sprintf("dyn%d", pr.Intn(20)), map[string]string{"p": fmt.Sprint(p)}).ReportCount(1)
+						if pr.Bool() {
+							// histograms allocated by several producers at once with one and the
+							// same tag set (served from the reporter's tag cache)
+							hh := rep.AllocateHistogram(fmt.Sprintf("hdyn%d", pr.Intn(6)), map[string]string{"shared": "tags", "zone": "z"}, tally.ValueBuckets{1, 2, 3})
+							hh.ValueBucket(1, 2).ReportSamples(1)
+						} else {
+							rep.AllocateCounter(fmt.Sprintf("dyn%d", pr.Intn(20)), map[string]string{"p": fmt.Sprint(p)}).ReportCount(1)
+						}
 					default:
 						hv.ValueBucket(2, 3).ReportSamples(1)
 					}
